@@ -63,6 +63,19 @@ Proof.
 Qed.
 Print Assumptions C05_trailing_short_malformed_rejected.
 
+(* a reader that returns an error at any offset before it is exhausted is never
+   accepted (ReadAll, CopyBuffer with any buffer, memory / OCI / named file push) *)
+Theorem C05_failing_reader_rejected :
+  forall (H : str -> str -> str) comb fuel evs d,
+    In Fail evs ->
+    (forall fixed buf v, read_all H comb fixed fuel (mkBase evs None) (d_dg d) (d_sz d) <> ((None, buf), v)) /\
+    (forall bufsz out v, copy_buffer H comb true fuel (mkBase evs None) bufsz (d_dg d) (d_sz d) <> ((None, out), v)) /\
+    (forall fixed m e m', mem_push H comb fixed fuel m d (mkBase evs None) = (e, m') -> e <> None /\ m' = m) /\
+    (forall s e s', oci_push H comb true fuel s d (mkBase evs None) = (e, s') -> e <> None /\ s' = s) /\
+    (forall s name e s', name <> [] -> file_push H comb true fuel s name d evs = (e, s') -> e <> None).
+Proof. exact failing_reader_rejected. Qed.
+Print Assumptions C05_failing_reader_rejected.
+
 (* cas.Memory.Push: success stores exactly the descriptor's bytes; failure changes nothing *)
 Theorem C05_push_memory :
   forall (H : str -> str -> str) comb fixed fuel m d src e m',
